@@ -79,6 +79,7 @@ def execSide (s : SideState) (stream op : String) (a : List String) : SideState 
     (s, match Side.SR.findRoute s.table (unhex h) with
       | none => "none"
       | some it => s!"{toHexField it.protocol} {toHexField it.host} {it.port}")
+  | "route", "conc", _ => (s, "ok")      -- lookups from several goroutines at once: same answers as alone (no model of the scheduler)
   | "route", "item", [p, d, n] =>
     (s, match Side.SR.newItem (unhex p) (unhex d) (unhex n) with
       | none => "err"
